@@ -5,6 +5,16 @@ V = '/verif'
 props = [json.loads(l) for l in open(f'{V}/properties.jsonl')]
 claims = json.load(open(f'{V}/tools/claims.json'))
 hooks = claims.get('_hooks', {})
+import subprocess
+try:
+    _out = subprocess.run(['git', '-C', '/repo', 'log', '--reverse', '--format=%h', '--', 'lexer/contracts_verif.go', 'parser/contracts_verif.go', 'emitter/contracts_verif.go'], capture_output=True, text=True).stdout.split()
+    _fix = subprocess.run(['git', '-C', '/repo', 'log', '--reverse', '--format=%h %s'], capture_output=True, text=True).stdout.splitlines()
+    if _out:
+        hooks = dict(hooks)
+        hooks['source_commits'] = _out
+        hooks['fix_commits'] = [l.split()[0] for l in _fix if l.split(' ', 1)[1].startswith('fix:')]
+except Exception:
+    pass
 m = {
  "version": 1,
  "setup_cmd": "cd /verif/govc && GOFLAGS=-mod=mod GOPROXY=off GOSUMDB=off GOTOOLCHAIN=local go build -o /verif/bin/govc .",
@@ -12,7 +22,8 @@ m = {
            "enable": "govc loads /repo with -tags verif; the hook files /repo/{lexer,parser,emitter}/contracts_verif.go are comment-only (//go:build verif, package clause, //@ contract lines)",
            "baseline_off_cmd": "cd /repo && go test -vet=off -count=1 ./...",
            "source_commits": hooks.get('source_commits', []),
-           "add_only": True},
+           "add_only": True,
+           "note": "source_commits: every commit that touches the three comment-only contract files (messages start with 'verif:' or 'contracts:'); they add or change //@ lines only. The unguarded 'fix:' commits (repairs of genuine defects, listed in known_findings.json) are: " + ", ".join(hooks.get('fix_commits', []))},
  "engines": [{"name": "govc", "path": "/verif/govc",
               "serves_properties": sorted(k for k in claims if not k.startswith('_') and claims[k].get('claim')),
               "kind_free_text": "contract-based deductive verification: VC generator over go/ssa (NaiveForm) of the real code, contracts as //@ comments behind build tag verif, obligations discharged by z3 5.1 / z3 4.8 / cvc5 (unsat only)"}],
